@@ -214,3 +214,22 @@ package container
 //@   opt immutable=Processor.allowEC
 //@   ensures [no_ec_rules_unless_enabled] err == nil && !old(cp.allowEC) ==> policyECRules() == 0
 //@   ensures [never_rep_and_ec_rules_together] err == nil ==> policyECRules() == 0 || policyReplicas() <= 0
+
+// ---- C34 / C37 (container creation with an additional eACL call): the main transaction of a
+// createV2 request may carry a second call that sets the container's eACL. The Alphabet
+// co-signs the whole transaction, so the handler validates that call too: the table must be
+// for the very container being created and pass the eACL checks.
+//@ ghost pred additionalEACLIsForTheCreatedContainer() bool
+//@ callrule c34_additional_eacl_container in (*Processor).processCreateContainerRequest
+//@   property C34 C37
+//@   callee *).GetCID
+//@   pureeffect
+//@   defines (result == id) == additionalEACLIsForTheCreatedContainer()
+//@ callrule c34_additional_eacl_checked in (*Processor).processCreateContainerRequest
+//@   property C34 C37
+//@   callee (*container.Processor).checkSetEACL
+//@   defines err == nil ==> setEACLChecked()
+//@ callrule c34_second_call_validated_before_co_signing in (*Processor).processCreateContainerRequest
+//@   property C34 C37
+//@   callee (*container.Processor).approvePutContainer
+//@   requires [additional_eacl_is_for_the_created_container_and_checked] req.EACLTable != nil ==> additionalEACLIsForTheCreatedContainer() && setEACLChecked()
